@@ -1,5 +1,6 @@
 (* C04 — lossless canonical round trip between bytes, record, text and JSON. *)
 Require Import Enr.Bytes Enr.Consts Enr.Rlp Enr.SortedMap Enr.Keccak Enr.Record Enr.Update Enr.Text Enr.Spec Enr.Toy.
+Require Import EnrProofs.Thm_BuildRoundtrip.
 Require Import EnrProofs.Thm_Decode EnrProofs.Thm_Text EnrProofs.Thm_Valid EnrProofs.Thm_Roundtrip.
 Open Scope N_scope.
 
@@ -83,3 +84,12 @@ Example toy_roundtrip :
   | _ => False
   end.
 Proof. vm_compute. split; reflexivity. Qed.
+
+(* ... and from the builder: every record `build` returns decodes back from bytes, text and JSON as itself
+   (bcall_bytes_ok: the keys given to add_value / add_value_rlp are byte strings) *)
+Theorem build_roundtrip : forall (c : crypto) kt sq calls k sg r,
+  sq < 2 ^ 64 -> Forall bcall_ok calls -> Forall bcall_bytes_ok calls -> key_bytes_ok k -> KeyOk c kt k -> GoodSigner c k sg ->
+  SignerBytes sg -> build c kt sq calls k sg = Ok r ->
+  decode c kt (encode r) = Ok (r, []) /\ from_str c kt (to_text r) = Ok r /\ from_json c kt (to_json r) = Some (Ok r).
+Proof. exact Thm_BuildRoundtrip.build_roundtrip. Qed.
+Print Assumptions build_roundtrip.
